@@ -248,3 +248,32 @@ def c14_plan(tier, seed, known):
 
 PLANS["C18"] = c18_plan
 PLANS["C14"] = c14_plan
+
+
+def c17_plan(tier, seed, known):
+    import os
+    thorough = tier == "thorough"
+    binp = os.path.join(os.path.dirname(os.path.dirname(os.path.abspath(__file__))), "build", "bin")
+    peers = ",".join(f"{v}={binp}/simworker-{v}" for v in ["nodefault", "full", "arkzkey", "stateless"])
+    jobs = split_jobs("e4", "C17", seed, 900 if thorough else 60, 6, 1, "default", known, tier, extra=["--peers", peers], rayons=(1, 2, 1, 2))
+    return {
+        "jobs": jobs,
+        "extra_variants": ["nodefault", "full", "arkzkey", "stateless"],
+        "build_is_property": ["nodefault", "full", "arkzkey", "stateless", "default"],
+        "level": "exploration",
+        "rule": ("one evaluation = one seeded scenario on a five-build network: worker processes built with default (persistent tree, snarkjs key), "
+                 "--no-default-features (Optimal tree), fullmerkletree (Full tree), arkzkey (arkworks key file) and stateless exchange bytes through the "
+                 "driver; the same history of single writes, appends and deletions is fed to the four stateful builds and after every event the roots "
+                 "(also against the ideal tree), leaf counts and membership-path bytes must be identical; messages proved on a seeded build (the "
+                 "stateless one through a witness taken from a stateful build) must be accepted by every other build and by the stateless verifier given "
+                 "the producer's root; once per driver the verifying-key digest and the (ProvingKey, ConstraintMatrices) digest of all builds must agree "
+                 "and the arkzkey build must find the two key files equal; non-trivial = at least one proof crossed builds; distinct = trace digest"),
+        "real": ["rln built under five feature sets (each a separate simworker binary from /repo's working tree)", "Groth16 prover/verifier, both key loaders (read_zkey, read_arkzkey_from_bytes_uncompressed)", "three tree backends at depth 20"],
+        "stub": ["the transport between builds (driver relays bytes over pipes)", "the membership history source"],
+        "assumptions": ["histories contain single writes, appends and deletions only (batch shapes belong to C06/C08)", "messages sampled as for C01 with a smaller budget"],
+        "timeout_s": 3400 if thorough else 1200,
+    }
+
+
+PLANS["C17"] = c17_plan
+SETUP_VARIANTS = ["default", "nodefault", "full", "arkzkey", "stateless"]
